@@ -80,8 +80,30 @@ def rotatedThenFailed (c : Cfg) (p : Proc) (op : Op) (t : Topic) : Bool :=
     | _, _ => false
   | _, _ => false
 
+/-- blocks of an instance that still hold entries its consumer has not read: the block under the cursor
+(if not exhausted), every later sealed block with data, the active block behind the tail cursor -/
+def unreadBlocks (i : Inst) : List Blk :=
+  i.readers.foldl (fun acc (x : Topic × ColInfo) =>
+    let info := x.2
+    let cur := match info.chain[info.curIdx]? with
+      | some b => if info.curOff < b.used then [b] else []
+      | none => []
+    let later := (info.chain.drop (info.curIdx + 1)).filter fun b => decide (b.used > 0)
+    let tail := match i.writers.get? x.1 with
+      | some w => if decide ((if info.tailId = w.blk.id then info.tailOff else 0) < w.off) then [w.blk] else []
+      | none => []
+    acc ++ cur ++ later ++ tail) []
+
+/-- the reclaimer's pass is about to delete a file in which a live instance still has unread entries -/
+def reclaimDeletesUnread (p : Proc) : Bool :=
+  let victims := p.trk.pendingDelete
+  let unread := (match p.inst with | some i => unreadBlocks i | none => []) ++
+    (match p.inst2 with | some i => unreadBlocks i | none => [])
+  unread.any fun b => victims.contains b.file
+
 def fires (c : Cfg) (p : Proc) (op : Op) : List String :=
   match op with
+  | .reclaim => if reclaimDeletesUnread p then ["reclaimDeletesUnread"] else []
   | .open_ _ => firesOpen c p 0
   | .append t pay =>
     (if c.metaSz + pay.len > c.maxAlloc then ["sealThenAllocFail"] else []) ++
@@ -98,6 +120,17 @@ def fires (c : Cfg) (p : Proc) (op : Op) : List String :=
         ps.any (fun x => decide (c.metaSz + x.len > c.maxAlloc)) then ["sealThenAllocFail"] else []) ++
     (if rotatedThenFailed c p op t then ["rollbackKeepsNewBlock"] else []) ++
     (if leavesEmptyBlock c p op t then ["emptyBlockAllocated"] else [])
+  | .onB o =>
+    (match o with
+     | .open_ _ => firesOpen c p 1
+     | _ => []) ++
+    -- both instances of the process have allocated blocks: their block ids (each instance numbers from 1)
+    -- collide in the process-global block tracker
+    (match p.inst, p.inst2 with
+     | some a, some b =>
+       let writes : Bool := match o with | .append _ _ => true | .batch _ _ => true | _ => false
+       if decide (a.allocId > 1) && (decide (b.allocId > 1) || writes) then ["blockIdCollision"] else []
+     | _, _ => [])
   | .crashAt kind n fd (.batch _ ps) =>
     -- a strict, non-empty prefix of the batch reaches the disk (sequential path only)
     (if (kind = 0 ∨ kind = 8) ∧ !fd ∧ 0 < n ∧ (step c p op).2 = .crashed then ["batchNotCrashAtomic"] else [])
